@@ -499,6 +499,24 @@ class AObjSource:
         return True
 
 
+class AObjProxy:
+    """Transparent proxy around a class-based async iterator: it defines only the iteration protocol itself and forwards
+    every other attribute - `aclose` included - through `__getattr__`.  `hasattr(p, "aclose")` is true, a *static*
+    look-up (`inspect.getattr_static`, which runtime-checkable protocols use since Python 3.12) does not find it."""
+
+    def __init__(self, inner):
+        self._inner = inner
+
+    def __aiter__(self):
+        return self
+
+    def __anext__(self):
+        return self._inner.__anext__()
+
+    def __getattr__(self, name):
+        return getattr(self._inner, name)
+
+
 class AObjNoCloseSource:
     def __init__(self, script, st, log, susp=0):
         self._inner = AObjSource(script, st, log, susp)
@@ -541,6 +559,8 @@ def make_source(kind, script, name, log, susp=0, close_susp=0):
         obj = _agen_source(script, st, log, susp)
     elif kind == "aobj":
         obj = AObjSource(script, st, log, susp, close_susp)
+        if (len(script) + (name if isinstance(name, int) else 0)) % 2 == 1 and not os.environ.get("VERIF_NO_PROXY_SOURCES"):
+            obj = AObjProxy(obj)    # every second class-based source offers `aclose` only dynamically
     elif kind == "aobj_nc":
         obj = AObjNoCloseSource(script, st, log, susp)
     else:
